@@ -345,7 +345,7 @@ func (x *Exec) loopHavoc(fr *Frame, li *loopInfo, entry, head *State) {
 	for _, k := range sortedKeys(mods) {
 		m := mods[k]
 		if strings.HasPrefix(k, "G:") || m.whole {
-			x.havocKey(head, k, m.t)
+			x.havocKeyCall(head, k, m.t)
 			continue
 		}
 		old := x.heapGet(entry, k, m.t)
